@@ -110,6 +110,7 @@ static int orc_parse_handle_directive (OrcParser *parser, const OrcLine *line);
 static int orc_parse_handle_opcode (OrcParser *parser, const OrcLine *line);
 
 static OrcStaticOpcode * orc_parse_find_opcode (OrcParser *parser, const char *opcode);
+static int orc_parse_get_int (OrcParser *parser, const char *token);
 static int opcode_n_args (OrcStaticOpcode *opcode);
 static int opcode_arg_size (OrcStaticOpcode *opcode, int arg);
 
@@ -560,7 +561,7 @@ orc_parse_handle_dotn (OrcParser *parser, const OrcLine *line)
         orc_parse_add_error (parser, ".n mult requires multiple value");
       } else {
         orc_program_set_n_multiple (parser->program,
-            strtol (line->tokens[i+1], NULL, 0));
+            orc_parse_get_int (parser, line->tokens[i+1]));
         i++;
       }
     } else if (strcmp (line->tokens[i], "min") == 0) {
@@ -568,7 +569,7 @@ orc_parse_handle_dotn (OrcParser *parser, const OrcLine *line)
         orc_parse_add_error (parser, ".n min requires multiple value");
       } else {
         orc_program_set_n_minimum (parser->program,
-            strtol (line->tokens[i+1], NULL, 0));
+            orc_parse_get_int (parser, line->tokens[i+1]));
         i++;
       }
     } else if (strcmp (line->tokens[i], "max") == 0) {
@@ -576,12 +577,12 @@ orc_parse_handle_dotn (OrcParser *parser, const OrcLine *line)
         orc_parse_add_error (parser, ".n max requires multiple value");
       } else {
         orc_program_set_n_maximum (parser->program,
-            strtol (line->tokens[i+1], NULL, 0));
+            orc_parse_get_int (parser, line->tokens[i+1]));
         i++;
       }
     } else if (i == line->n_tokens - 1) {
       orc_program_set_constant_n (parser->program,
-          strtol (line->tokens[i], NULL, 0));
+          orc_parse_get_int (parser, line->tokens[i]));
     } else {
       orc_parse_add_error (parser, "unknown .n token '%s'", line->tokens[i]);
     }
@@ -600,7 +601,7 @@ orc_parse_handle_dotm (OrcParser *parser, const OrcLine *line)
     return 0;
   }
 
-  size = strtol (line->tokens[1], NULL, 0);
+  size = orc_parse_get_int (parser, line->tokens[1]);
   orc_program_set_constant_m (parser->program, size);
 
   return 1;
@@ -618,14 +619,14 @@ orc_parse_handle_source (OrcParser *parser, const OrcLine *line)
     return 0;
   }
 
-  size = strtol (line->tokens[1], NULL, 0);
+  size = orc_parse_get_int (parser, line->tokens[1]);
   var = orc_program_add_source (parser->program, size, line->tokens[2]);
   for(i=3;i<line->n_tokens;i++){
     if (strcmp (line->tokens[i], "align") == 0) {
       if (i == line->n_tokens - 1) {
         orc_parse_add_error (parser, ".source align requires alignment value");
       } else {
-        int alignment = strtol (line->tokens[i+1], NULL, 0);
+        int alignment = orc_parse_get_int (parser, line->tokens[i+1]);
         orc_program_set_var_alignment (parser->program, var, alignment);
         i++;
       }
@@ -652,14 +653,14 @@ orc_parse_handle_dest (OrcParser *parser, const OrcLine *line)
     return 0;
   }
 
-  size = strtol (line->tokens[1], NULL, 0);
+  size = orc_parse_get_int (parser, line->tokens[1]);
   var = orc_program_add_destination (parser->program, size, line->tokens[2]);
   for(i=3;i<line->n_tokens;i++){
     if (strcmp (line->tokens[i], "align") == 0) {
       if (i == line->n_tokens - 1) {
         orc_parse_add_error (parser, ".source align requires alignment value");
       } else {
-        int alignment = strtol (line->tokens[i+1], NULL, 0);
+        int alignment = orc_parse_get_int (parser, line->tokens[i+1]);
         orc_program_set_var_alignment (parser->program, var, alignment);
         i++;
       }
@@ -685,7 +686,7 @@ orc_parse_handle_accumulator (OrcParser *parser, const OrcLine *line)
     return 0;
   }
 
-  size = strtol (line->tokens[1], NULL, 0);
+  size = orc_parse_get_int (parser, line->tokens[1]);
   var = orc_program_add_accumulator (parser->program, size, line->tokens[2]);
   if (line->n_tokens > 3) {
     orc_program_set_type_name (parser->program, var, line->tokens[3]);
@@ -704,7 +705,7 @@ orc_parse_handle_constant_str (OrcParser *parser, const OrcLine *line)
     return 0;
   }
 
-  size = strtol (line->tokens[1], NULL, 0);
+  size = orc_parse_get_int (parser, line->tokens[1]);
 
   if (orc_program_add_constant_str (parser->program, size, line->tokens[3],
         line->tokens[2]) < 0) {
@@ -727,7 +728,7 @@ orc_parse_handle_constant_str (OrcParser *parser, const OrcLine *line)
           line->tokens[0]); \
       return 0; \
     } \
-    size = strtol (line->tokens[1], NULL, 0); \
+    size = orc_parse_get_int (parser, line->tokens[1]); \
     orc_program_add_ ## ITEM (parser->program, size, line->tokens[2]); \
     return 1; \
   }
@@ -776,6 +777,23 @@ orc_parse_handle_directive (OrcParser *parser, const OrcLine *line)
   return 0;
 }
 
+
+/* a number of a directive (size, alignment, .n / .m value): what strtol()
+ * does not take completely is reported, not silently read as 0 or as its
+ * numeric prefix */
+static int
+orc_parse_get_int (OrcParser *parser, const char *token)
+{
+  char *end;
+  long value;
+
+  value = strtol (token, &end, 0);
+  if (end == token || end[0] != 0) {
+    orc_parse_add_error (parser, "bad number '%s'", token);
+  }
+
+  return value;
+}
 
 static OrcStaticOpcode *
 orc_parse_find_opcode (OrcParser *parser, const char *opcode)
